@@ -122,7 +122,7 @@ def parseKind (k : String) : Option Cfg :=
   else match k.splitOn ":" with
     | [h, seps, quotes] =>
       -- "c" / "C" / "D": the same configuration reached through different histories of setter calls
-      if h != "c" && h != "C" && h != "D" then none else
+      if h != "c" && h != "C" && h != "D" && h != "E" then none else
       let ss := parseRunes seps; let qs := parseRunes quotes
       if csvValid ss qs then some (csvCfg ss qs) else none
     | _ => none
